@@ -5,3 +5,5 @@ INVARIANT Emit
 INVARIANT NeverStarWithCredentials
 INVARIANT AcaoOnlyIfAllowed
 INVARIANT LookAlikesRefused
+INVARIANT SpellingIrrelevant
+INVARIANT OnlyOptionsIsPreflight
